@@ -142,6 +142,7 @@ def main():
     if a.replay:
         rp, o = native(json.load(open(a.replay))['case']); print(o); sys.exit(1 if rp else 0)
     rep = R.Report('C16', a.tier, seed); timeout = solve.TIMEOUT_MS[a.tier]
+    R.prefetch_native('props.c16_native', ['bounded', str(seed), a.tier])      # the stand-in runs while the obligations are discharged
     u = Under()
     for m, names in ((DB, ['DistinguisherMixin.update', 'DistinguisherMixin._check', 'DistinguisherMixin._memory_usage_coefficient', '_initialize_distinguisher']),
                      ('scared.distinguishers.cpa', ['CPADistinguisherMixin._initialize', 'CPADistinguisherMixin._update']),
